@@ -689,33 +689,22 @@ not counted -/
 def specialWidth (w : Char → Int) (body : Str) : Int :=
   ((body.drop 1).filter fun c => c ≠ '{' ∧ c ≠ '}').foldl (fun a c => a + w c) 0
 
-theorem foldl_width_acc (w : Char → Int) (toks : List Tok) : ∀ acc : Int,
-    toks.foldl (fun a t => a + widthTok w t) acc = acc + toks.foldl (fun a t => a + widthTok w t) 0 := by
-  induction toks with
-  | nil => intro acc; simp
-  | cons t r ih =>
-    intro acc
-    simp only [List.foldl_cons]
-    rw [ih (acc + widthTok w t), ih (0 + widthTok w t)]
-    omega
-
-theorem width_plain_toks (w : Char → Int) (s : Str) (d : Nat) (hd : d ≠ 1 ∨ ∀ c ∈ s, c ≠ '\\') :
-    (s.map fun c => (([c], d) : Tok)).foldl (fun a t => a + widthTok w t) 0 = (s.map w).sum := by
-  induction s with
+theorem width_plain_toks (w : Char → Int) (s : Str) (d : Nat) (hs : ∀ c ∈ s, c ≠ '{') (b : Bool)
+    (hb : b = false ∨ d ≠ 1) :
+    widthToks w b (s.map fun c => (([c], d) : Tok)) = (s.map w).sum := by
+  induction s generalizing b with
   | nil => rfl
   | cons c r ih =>
-    have hr := ih (hd.imp id (fun h x hx => h x (List.mem_cons_of_mem _ hx)))
-    have h1 : widthTok w ([c], d) = w c := by
+    have hc : c ≠ '{' := hs c (by simp)
+    have hflag : decide ((([c], d) : Tok) = (['{'], 1)) = false := by simp [hc]
+    have hr := ih (fun x hx => hs x (List.mem_cons_of_mem _ hx)) false (Or.inl rfl)
+    have h1 : widthTok w b ([c], d) = w c := by
       simp only [widthTok]
       rw [if_neg]
-      rintro ⟨h1, h2⟩
-      rcases hd with hd | hd
-      · exact hd h1
-      · have := hd c (by simp)
-        simp [startsWithBackslash] at h2
-        exact this h2
-    simp only [List.map_cons, List.foldl_cons, List.sum_cons]
-    rw [foldl_width_acc, hr, h1]
-    omega
+      rintro ⟨h1, _, h3⟩
+      rcases hb with hb | hb
+      · rw [hb] at h3; cases h3
+      · exact hb h1
+    simp only [List.map_cons, widthToks, List.sum_cons, hflag, hr, h1]
 
 end Pybtex.TeXU
